@@ -76,6 +76,23 @@ def boundOps : List Str := ["<".toList, ">".toList, ".LE.".toList, ".GE.".toList
 def boundText (v : Str) : Str :=
   replaceAll "d".toList "e".toList (boundOps.foldl (fun acc op => replaceAll op [] acc) v)
 
+def isIdentChar (c : Char) : Bool := c.isAlphanum || c == '_'
+
+/-- is the text, after optional white space, an opening parenthesis? (the look-ahead `(?=\s*\()`) -/
+def opensCall (s : Str) : Bool := (s.dropWhile Char.isWhitespace).head? == some '('
+
+/-- `re.sub(r"\bdexp(?=\s*\()", "exp", s)`: the call `dexp(…)` becomes `exp(…)`; an identifier that merely contains
+    `dexp` (`user_dexp`) is left alone.  `prev` says whether the character before is an identifier character. -/
+def fixRateAux : Nat → Bool → Str → Str
+  | 0, _, s => s
+  | _, _, [] => []
+  | fuel + 1, prev, c :: cs =>
+    if !prev && "dexp".toList.isPrefixOf (c :: cs) && opensCall ((c :: cs).drop 4) then
+      "exp".toList ++ fixRateAux fuel true ((c :: cs).drop 4)
+    else c :: fixRateAux fuel (isIdentChar c) cs
+
+def fixRate (s : Str) : Str := fixRateAux (s.length + 1) false s
+
 /-- one (key, value) pair of the zip -/
 def assign (l : KLine) (kv : Str × Str) : KLine :=
   let (key, value) := kv
@@ -85,7 +102,7 @@ def assign (l : KLine) (kv : Str × Str) : KLine :=
   else if key == "p".toList then { l with pr := l.pr ++ [value] }
   else if key == "tmin".toList then (if upper value ∈ noBound then l else { l with tmin := some (boundText value) })
   else if key == "tmax".toList then (if upper value ∈ noBound then l else { l with tmax := some (boundText value) })
-  else if key == "rate".toList then { l with rate := some (replaceAll "dexp".toList "exp".toList value) }
+  else if key == "rate".toList then { l with rate := some (fixRate value) }
   else l
 
 /-- the keys of the format in force: `self.reacformat.lower().strip().split(",")` -/
